@@ -128,7 +128,43 @@ func (u *Unit) ghostUpdates(st *State, where string, ctx *EvalCtx) {
 		nv := u.define(st, "ghost_"+g.Var, mkT(v.S, cur.Sort, cur.T))
 		nv.T = cur.T
 		st.ghost[g.Var] = nv
+		// a ghost array updated at one index: the (valid) fact that it agrees with its previous value
+		// elsewhere, triggered by reads of the previous value, so that invariants stated over the old
+		// array produce the corresponding reads of the new one
+		if strings.HasPrefix(cur.Sort, "(Array Int ") {
+			if idx, ok := storeIndex(v.S, cur.S); ok {
+				st.assume(mk(fmt.Sprintf("(forall ((j!g Int)) (! (=> (not (= j!g %s)) (= (select %s j!g) (select %s j!g))) :pattern ((select %s j!g)) :pattern ((select %s j!g))))", idx, nv.S, cur.S, cur.S, nv.S), SBool))
+			}
+		}
 	}
+}
+
+// storeIndex recognises "(store <arr> <idx> <val>)" and "(ite <c> (store <arr> <idx> <val>) <arr>)".
+func storeIndex(s, arr string) (string, bool) {
+	if strings.HasPrefix(s, "(ite ") {
+		if i := strings.Index(s, "(store "+arr+" "); i > 0 && strings.HasSuffix(s, " "+arr+")") {
+			s = s[i : len(s)-len(arr)-2]
+		}
+	}
+	pre := "(store " + arr + " "
+	if !strings.HasPrefix(s, pre) {
+		return "", false
+	}
+	rest := s[len(pre):]
+	depth := 0
+	for i, c := range rest {
+		switch c {
+		case '(':
+			depth++
+		case ')':
+			depth--
+		case ' ':
+			if depth == 0 {
+				return rest[:i], true
+			}
+		}
+	}
+	return "", false
 }
 
 // dynCall handles a call through a function value whose possible targets include closures or
